@@ -121,7 +121,14 @@ func Interval(interval time.Duration) Observable[int64] {
 // Play: https://go.dev/play/p/Xhi6c336ldy
 func IntervalWithInitial(initial, interval time.Duration) Observable[int64] {
 	return NewObservableWithContext(func(ctx context.Context, destination Observer[int64]) Teardown {
-		ticker := time.NewTicker(initial * 2)
+		// The ticker is re-armed with `interval` after the initial tick. Until then it must not fire,
+		// and time.NewTicker panics on a non-positive period (initial == 0).
+		tickerPeriod := initial * 2
+		if tickerPeriod <= 0 {
+			tickerPeriod = interval
+		}
+
+		ticker := time.NewTicker(tickerPeriod)
 		timer := time.NewTimer(initial)
 		done := make(chan struct{}, 1)
 
